@@ -38,6 +38,7 @@ func jsonCfgs() []jsonCfg {
 		{"w0-1sp-nosort", &snaps.JSONConfig{Width: 0, Indent: " ", SortKeys: false}},
 		{"w80-4sp-sort", &snaps.JSONConfig{Width: 80, Indent: "    ", SortKeys: true}},
 		{"w20-tab-nosort", &snaps.JSONConfig{Width: 20, Indent: "\t", SortKeys: false}},
+		{"zero-value-config", &snaps.JSONConfig{}},
 	}
 }
 
